@@ -122,3 +122,13 @@ def raise_site(exc):
             site = fn.rsplit("/", 1)[1] + ":" + tb.tb_frame.f_code.co_name
         tb = tb.tb_next
     return site
+
+
+# builtins that accept proxies (identical to the builtins on plain values)
+from symex import shims as _sh
+
+schr = _sh.sym_chr
+sord = _sh.sym_ord
+sstr = _sh.sym_str
+srepr = _sh.sym_repr
+sint = _sh.sym_int
